@@ -156,6 +156,10 @@ type wdrv struct {
 	rdr   *wrapReader
 	rec   *Rec
 	run   string
+	// reuse: the consumer hands the same Block to every Parse call (the
+	// usual way to use the API); otherwise every call gets a fresh one
+	reuse bool
+	blk   lz.Block
 }
 
 func (d *wdrv) ev(e Event) Event {
@@ -174,6 +178,15 @@ func (d *wdrv) do(op map[string]any) bool {
 		var blk *lz.Block
 		if name == "wparse" {
 			blk = &lz.Block{Sequences: append([]lz.Seq{}, junkSeqs...), Literals: append([]byte{}, junkLits...)}
+			if d.reuse {
+				if d.blk.Sequences == nil {
+					d.blk = *blk
+				}
+				blk = &d.blk
+				for i := range blk.Sequences {
+					blk.Sequences[i].Aux = 7
+				}
+			}
 		}
 		start := len(d.rdr.log)
 		d.proxy.innerCalls = 0
@@ -248,7 +261,7 @@ func newWrapDriver(s *Script, rec *Rec, run string) *wdrv {
 	if p == nil {
 		return nil
 	}
-	d := &wdrv{rec: rec, run: run}
+	d := &wdrv{rec: rec, run: run, reuse: boolean(s.Cfg["reuse"])}
 	d.rdr = newWrapReader(s.Cfg)
 	d.proxy = &proxyParser{p: p, rec: rec, rdr: &d.rdr, run: run}
 	d.wp = lz.Wrap(readerIndirect{&d.rdr}, d.proxy)
@@ -366,9 +379,24 @@ func genWrap(seed int64, n int, tier string) []Script {
 		B := int(num(cfg["BufferSize"]))
 		total := genWrapInputLen(r, B, int(num(cfg["BlockSize"])), maxLen)
 		data, class := genInput(r, total)
+		if (r.Intn(8) == 0 || ((kind == "OSAP" || kind == "GSAP") && r.Intn(3) == 0)) && B >= 16 && B <= 250 {
+			// a first buffer fill without any repeated gram (every byte
+			// value once), then compressible data: the parser hands out a
+			// literal-only block first and blocks with matches after the
+			// refill
+			data = data[:0]
+			for j := 0; j < B; j++ {
+				data = append(data, byte(j))
+			}
+			for j := 0; j < 2*B+r.Intn(maxLen); j++ {
+				data = append(data, byte('a'+r.Intn(4)))
+			}
+			class = "distinct-then-compressible"
+		}
 		faults := r.Intn(3) == 0
 		calls, eofWith := genReaderCalls(r, len(data), faults)
 		cfg["src"], cfg["rcalls"], cfg["eofwith"] = B2(data), calls, eofWith
+		cfg["reuse"] = r.Intn(2) == 0 || class == "distinct-then-compressible"
 		tags := []string{"go", kind, class}
 		if faults {
 			tags = append(tags, "faults")
@@ -423,6 +451,7 @@ func genWrapDefault(seed int64, n int, tier string) []Script {
 			cfg["eofwith"] = true
 		}
 		cfg["src"], cfg["rcalls"] = B2(data), calls
+		cfg["reuse"] = r.Intn(2) == 0
 		out = append(out, Script{Tid: "wrap-default-" + itoa(seed) + "-" + itoa(int64(i)), Comp: "wrap", Cfg: cfg,
 			Ops: []map[string]any{{"op": "wpump", "seed": r.Intn(1 << 30), "pntl": 0, "pnil": 0}},
 			Tags: []string{"go", kind, "defaultconfig"}})
